@@ -80,6 +80,14 @@ def sp1(proj, rep):
         else:
             rep.violation('SP1', f'{f.qual}[{key}]', f'arm uses factors {sorted(facs)}; the sibling arms use (x-1, x>>1) = (4^i - 1, 2^(2i-1)): base, order and '
                           f'coset numbers disagree', m, body[0])
+    # exact integers: |Sp(2n,F2)| exceeds 2^63 from n = 6 on, so no fixed-width (numpy) reduction may appear
+    n += 1
+    npcalls = [c for c in ast.walk(f.node) if isinstance(c, ast.Call) and _t(c.func).startswith(('np.', 'numpy.'))]
+    if npcalls:
+        rep.violation('SP1', f'{f.qual}[exact integers]', f'`{ast.unparse(npcalls[0])[:80]}` reduces the radices in fixed-width NumPy integers: the group order '
+                      f'exceeds 2^63 from n = 6 (|Sp(12,F2)| ~ 2e23) and wraps silently, so the order no longer equals prod(base)', m, npcalls[0])
+    else:
+        rep.ok('SP1', f'{f.qual}[exact integers]', 'radices are accumulated in Python integers', m, f.node, text='exact integers')
     rep.count('SP1.obligations', n)
     return n
 
@@ -305,6 +313,39 @@ def sp5(proj, rep):
         n -= 1
     else:
         rep.violation('SP5', f.qual, f'`{_t(upd)}` is not x + <x,h>*h (mod 2)', m, upd)
+    # no function of the module mutates an array parameter in place (to_int_tuple hands views of the caller's matrix to transvection)
+    n += 1
+    impure = None
+    nfun = 0
+    for fi2 in [x for x in proj.funcs.values() if x.module is m and x.cls is None]:
+        nfun += 1
+        params = set(fi2.all_params)
+        for st in ast.walk(fi2.node):
+            tgt = None
+            if isinstance(st, ast.AugAssign):
+                tgt = st.target
+            elif isinstance(st, ast.Assign) and isinstance(st.targets[0], ast.Subscript):
+                tgt = st.targets[0]
+            if tgt is None:
+                continue
+            base = tgt
+            while isinstance(base, ast.Subscript):
+                base = base.value
+            if isinstance(base, ast.Name) and base.id in params:
+                # a parameter that was re-bound to a fresh object before this statement is no longer the caller's array
+                rebound = any(isinstance(s2, ast.Assign) and any(isinstance(t2, ast.Name) and t2.id == base.id for t2 in s2.targets) and s2.lineno < st.lineno
+                              for s2 in ast.walk(fi2.node))
+                if not rebound:
+                    impure = (fi2, st, base.id)
+                    break
+        if impure:
+            break
+    if impure:
+        fi2, st, pn = impure
+        rep.violation('SP5', fi2.qual, f'`{ast.unparse(st)[:70]}` modifies the caller\'s array `{pn}` in place: to_int_tuple passes rows of its argument, so decoding a '
+                      f'matrix corrupts it (a second decode / any later use sees a non-symplectic matrix)', m, st)
+    else:
+        rep.ok('SP5', MOD, f'{nfun} module functions never assign into / augment an array parameter', m, m.tree, text='parameter purity')
     f = proj.func(f'{MOD}.inverse')
     r = next((s for s in ast.walk(f.node) if isinstance(s, ast.Assign) and 'np.roll' in _t(s.value)), None)
     n += 1
